@@ -614,6 +614,8 @@ func checkDiscipline(w *World, r *Report, la *LockAnalysis, filter func(sharedSt
 			}
 		}
 		switch {
+		case publishedByClose(w, ss.name, v, as):
+			r.OK("R09.1u", construct, v.Pos(), true, "new field, written once by the gated Close before it closes a channel, read only after a receive from that channel (%d accesses)", len(as))
 		case allAtomic:
 			r.OK("R09.1u", construct, v.Pos(), true, "new field, accessed only through sync/atomic (%d accesses)", len(as))
 		case writesOnlyCtor:
@@ -917,4 +919,108 @@ func keepsReceiverPrivateDepth(t *FuncInfo, depth int) bool {
 		return true
 	})
 	return ok
+}
+
+// publishedByClose: the field is written only in the owner's Close (behind the
+// compare-and-swap gate: one writer, once), Close closes a channel field of the
+// same struct after the write, and every read sits in the case of a select (or
+// after a statement) that receives from that channel: the close of the channel
+// is the happens-before edge.
+func publishedByClose(w *World, owner string, v *types.Var, as []*Access) bool {
+	if owner != "scope" && owner != "provider" {
+		return false
+	}
+	closeFn := w.Fn(w.Godi, "(*"+owner+").Close")
+	if closeFn == nil {
+		return false
+	}
+	allowed := w.HelperClosure(map[*FuncInfo]string{closeFn: "Close"})
+	var chanField *types.Var
+	lastWrite := token.NoPos
+	reads := 0
+	for _, a := range as {
+		fi := w.FuncAt(a.Pos())
+		if fi == nil {
+			return false
+		}
+		if a.IsWrite() {
+			if _, ok := allowed[fi]; !ok || a.Kind != "write" {
+				if a.Unit != nil && isAllocatingFunc(w, a.Unit.fi, namedOfStruct(w, owner)) {
+					continue
+				}
+				return false
+			}
+			if a.Pos() > lastWrite {
+				lastWrite = a.Pos()
+			}
+			continue
+		}
+		if _, inClose := allowed[fi]; inClose {
+			continue // Close reads its own write
+		}
+		reads++
+		// the read is guarded by a receive from a channel field of the same object
+		info := fi.Pkg.TypesInfo
+		guarded := false
+		var stack []ast.Node
+		ast.Inspect(fi.Decl.Body, func(x ast.Node) bool {
+			if x == nil {
+				stack = stack[:len(stack)-1]
+				return true
+			}
+			stack = append(stack, x)
+			if x.Pos() <= a.Pos() && a.Pos() < x.End() {
+				if cc, ok := x.(*ast.CommClause); ok && cc.Comm != nil {
+					ast.Inspect(cc.Comm, func(y ast.Node) bool {
+						if u, ok := y.(*ast.UnaryExpr); ok && u.Op == token.ARROW {
+							if fv := fieldOf(info, u.X); fv != nil && ownerOfFieldRaw(w, fv) == owner {
+								if _, isChan := fv.Type().Underlying().(*types.Chan); isChan && exprStr(selBase(u.X)) == exprStr(a.Base) {
+									guarded, chanField = true, fv
+								}
+							}
+						}
+						return true
+					})
+				}
+			}
+			return true
+		})
+		if !guarded {
+			// a plain receive statement earlier in the function
+			for _, n := range w.FlowOf(fi).Nodes() {
+				if n.End() > a.Pos() {
+					continue
+				}
+				ast.Inspect(n, func(y ast.Node) bool {
+					if u, ok := y.(*ast.UnaryExpr); ok && u.Op == token.ARROW {
+						if fv := fieldOf(info, u.X); fv != nil && ownerOfFieldRaw(w, fv) == owner {
+							if _, isChan := fv.Type().Underlying().(*types.Chan); isChan && exprStr(selBase(u.X)) == exprStr(a.Base) {
+								if es, isES := n.(*ast.ExprStmt); isES && unparen(es.X) == ast.Expr(u) {
+									guarded, chanField = true, fv
+								}
+							}
+						}
+					}
+					return true
+				})
+			}
+		}
+		if !guarded {
+			return false
+		}
+	}
+	if chanField == nil || lastWrite == token.NoPos || reads == 0 {
+		return false
+	}
+	// Close closes that channel after the write
+	closed := false
+	for f := range allowed {
+		info := f.Pkg.TypesInfo
+		for _, c := range callsIn(f.Decl.Body, true) {
+			if id, ok := unparen(c.Fun).(*ast.Ident); ok && id.Name == "close" && len(c.Args) == 1 && fieldOf(info, c.Args[0]) == chanField && c.Pos() > lastWrite {
+				closed = true
+			}
+		}
+	}
+	return closed
 }
